@@ -84,6 +84,7 @@ def _contract_job(args):
                     if rr == 'sat':
                         out['covers_sat'] += 1
             bykey = {}
+            second_budget = [90.0]
             for o in fobs:
                 bykey.setdefault(_key(o), []).append(o)
             for o, r in open_:
@@ -92,6 +93,20 @@ def _contract_job(args):
                 for fo in cands:
                     rr, dt, model = smt.refute_finite(fo, frun.vc.axioms, bounds, budget['fin_ms'], seed)
                     if rr == 'sat':
+                        # second opinion before an alarm: quantified proofs are seed/time sensitive, and an obligation that is
+                        # merely slow must not become a violation.  Bounded extra effort per contract (cap 90 s).
+                        if second_budget[0] > 0 and r.verdict != 'sat?':
+                            t2 = time.time()
+                            r2 = smt.discharge(o, run.vc.axioms, dict(z3_ms=min(30000, int(second_budget[0] * 400)), cvc5_ms=min(30000, int(second_budget[0] * 300))),
+                                               seed=seed + 104729)
+                            second_budget[0] -= time.time() - t2
+                            if r2.verdict == 'discharged':
+                                verdict = 'discharged'
+                                for rd in out['results']:
+                                    if rd['name'] == o.name:
+                                        rd['backend'] = r2.backend + ' (second attempt)'
+                                        rd['seconds'] = (rd['seconds'] or 0) + r2.seconds
+                                break
                         verdict = 'refuted'
                         wit = None
                         try:
